@@ -279,15 +279,35 @@ pub fn c02(tier: Tier) -> PropSpec {
     }
 }
 
+/// What the definitions give for an ADF: on truth tables for n <= 7, by formula evaluation beyond
+/// (generators for wider ADFs keep the supports small).
+pub struct Expect {
+    pub stable: Vec<Interp>,
+    pub two: Vec<Interp>,
+    pub grd: Interp,
+}
+pub fn expect_of(acs: &[F]) -> Expect {
+    if acs.len() <= 7 {
+        let o = Oracle::new(acs);
+        Expect { stable: oracle::stable(acs), two: o.two_valued(), grd: o.grounded().0 }
+    } else {
+        let (stable, two) = oracle::stable_wide(acs);
+        Expect { stable, two, grd: oracle::grounded_local(acs).0 }
+    }
+}
+
+pub fn sem_case_many_models(lo: usize, hi: usize) -> BoxedStrategy<SemCase> {
+    (gen::adf_case(gen::adf_many_models(lo, hi), LabelClass::Alnum), sort_strategy())
+        .prop_map(|(adf, sort)| SemCase { adf, sort })
+        .boxed()
+}
+
 // ------------------------------------------------------------------------------------------
 // C03
 
 fn c03_check(c: &SemCase, st: &mut Stats) -> CheckResult {
     let text = c.adf.text();
-    let o = Oracle::new(&c.adf.acs);
-    let expected = oracle::stable(&c.adf.acs);
-    let two = o.two_valued();
-    let (grd, _) = o.grounded();
+    let Expect { stable: expected, two, grd } = expect_of(&c.adf.acs);
     let res = sut::with_parser(&text, c.sort, |p| -> Result<(), String> {
         let names = parser_names(p);
         let perm = sut::perm_from_names(&names, &c.adf.labels)?;
@@ -342,10 +362,77 @@ fn c03_check(c: &SemCase, st: &mut Stats) -> CheckResult {
     if two.len() > expected.len() {
         st.label("has_unstable_two_valued_model");
     }
+    if two.len() > 16 {
+        st.label("more_than_16_two_valued_models");
+    }
+    if two.len() > 64 {
+        st.label("more_than_64_two_valued_models");
+    }
     if two.len() > expected.len() || (!expected.is_empty() && grd.iter().any(|t| !t.decided())) {
         st.nontrivial(case_hash(c), || {
             sample(c, json!({"stable": show_set(&expected), "two_valued": show_set(&two)}))
         });
+    }
+    Ok(Outcome::Ok)
+}
+
+/// The one revision of a shared variable container the documentation allows is adding statements. A biodivine ADF
+/// built BEFORE such an addition must still hand over exactly its own statements in the hybrid step.
+fn c03_grown_check(c: &SemCase, st: &mut Stats) -> CheckResult {
+    let text = c.adf.text();
+    let n = c.adf.n();
+    let Expect { stable: expected, two, grd } = expect_of(&c.adf.acs);
+    let complete = Oracle::new(&c.adf.acs).complete();
+    let extra: Vec<String> = (0..3).map(|i| format!("zzverifextra{i}")).filter(|l| !c.adf.labels.contains(l)).collect();
+    let res = sut::with_parser_opt(&text, c.sort, false, |p| -> Result<(), String> {
+        let bio = BdAdf::from_parser(p);
+        let bio_rw = BdAdf::from_parser_with_stm_rewrite(p);
+        // a second parser over the same container declares more statements
+        let p2 = AdfParser::with_var_container(p.var_container());
+        let more: String = extra.iter().map(|l| format!("s({l}).")).collect();
+        match p2.parse()(&more) {
+            Ok((rest, ())) if rest.is_empty() => {}
+            other => return Err(format!("declaring more statements over the shared container failed: {other:?}")),
+        }
+        let names = parser_names(p);
+        if names.len() != n + extra.len() {
+            return Err(format!("shared container has {} names after adding {} to {n}", names.len(), extra.len()));
+        }
+        let perm = sut::perm_from_names(&names[..n], &c.adf.labels)?;
+        for (nm, mut a) in [
+            ("hybrid(pre)", bio.hybrid_step()),
+            ("hybrid(nopre)", bio.hybrid_step_opt(false)),
+            ("from_biodivine", Adf::from_biodivine(&bio)),
+            ("rewrite.hybrid(nopre)", bio_rw.hybrid_step_opt(false)),
+        ] {
+            let g = a.grounded();
+            if sut::to_logical(&perm, &sut::abs(&g)).map_err(|e| format!("{nm}.grounded() after the container grew: {e}"))? != grd {
+                return Err(format!("{nm}.grounded() after the container grew: {} instead of {}", show(&sut::abs(&g)), show(&grd)));
+            }
+            let got: Vec<Vec<Term>> = a.stable().collect();
+            cmp_multiset(&format!("{nm}.stable() after the container grew"), &perm, &got, &expected)?;
+            let got: Vec<Vec<Term>> = a.stable_with_prefilter().collect();
+            cmp_multiset(&format!("{nm}.stable_with_prefilter() after the container grew"), &perm, &got, &expected)?;
+            let got = a.stable_bdd_representation(&bio);
+            cmp_multiset(&format!("{nm}.stable_bdd_representation() after the container grew"), &perm, &got, &expected)?;
+            let got: Vec<Vec<Term>> = a.stable_count_optimisation_heu_a().collect();
+            cmp_multiset(&format!("{nm}.stable_count_optimisation_heu_a() after the container grew"), &perm, &got, &expected)?;
+            let got: Vec<Vec<Term>> = a.complete().collect();
+            cmp_multiset(&format!("{nm}.complete() after the container grew"), &perm, &got, &complete)?;
+        }
+        let got: Vec<Vec<Term>> = bio.stable().collect();
+        cmp_multiset("biodivine.stable() after the container grew", &perm, &got, &expected)?;
+        let got = bio_rw.stable_bdd_representation();
+        cmp_multiset("biodivine(rewrite).stable_bdd_representation() after the container grew", &perm, &got, &expected)?;
+        Ok(())
+    });
+    match res {
+        Err(e) => return Err(format!("well-formed input rejected: {e}")),
+        Ok(Err(e)) => return Err(e),
+        Ok(Ok(())) => {}
+    }
+    if two.len() > expected.len() || !expected.is_empty() {
+        st.nontrivial(case_hash(c), || sample(c, json!({"stable": show_set(&expected), "added": extra})));
     }
     Ok(Outcome::Ok)
 }
@@ -355,7 +442,7 @@ pub fn c03(tier: Tier) -> PropSpec {
     PropSpec {
         id: "C03",
         level: "exploration",
-        rule: "generated ADFs (as C01, n<=6/7) -> 16 call paths (stable, stable_with_prefilter, \
+        rule: "generated ADFs (as C01, n<=6/7; part many-models: 6..11 statements with tens to hundreds of two-valued models, oracle by formula evaluation; part grown-container: the shared variable container gains statements between the biodivine ADF and the hybrid step) -> 20 call paths (stable, stable_with_prefilter, \
                stable_bdd_representation with internal / parser rewriting on native, hybrid(+/-pre); biodivine stable \
                and both rewritings) compared as multisets with the stable models of the definition (two-valued \
                models whose true statements are re-derived by the grounded interpretation of the reduct). \
@@ -368,6 +455,10 @@ pub fn c03(tier: Tier) -> PropSpec {
             move || sem_case(1, hi),
             c03_check,
         ),
+        // tens to hundreds of two-valued models, only some of them stable (candidate lists longer than any core count)
+        Part::new("many-models", tier.pick(2500, 25000), || sem_case_many_models(6, 11), c03_check),
+        // the shared variable container grows between building the biodivine ADF and the hybrid step
+        Part::new("grown-container", tier.pick(3000, 30000), || sem_case(1, 6), c03_grown_check),
         Box::new(Logged(Part::new("small-with-logging", tier.pick(1500, 15000), || sem_case(1, 5), c03_check))),
         crate::props::cli::sem_cli_part("cli-stm", &[crate::props::cli::Flag::Stm, crate::props::cli::Flag::StmPre, crate::props::cli::Flag::StmRew, crate::props::cli::Flag::StmRew2], tier.pick(150, 1500))],
     }
@@ -378,9 +469,7 @@ pub fn c03(tier: Tier) -> PropSpec {
 
 fn c04_check(c: &SemCase, st: &mut Stats) -> CheckResult {
     let text = c.adf.text();
-    let o = Oracle::new(&c.adf.acs);
-    let expected = oracle::stable(&c.adf.acs);
-    let (grd, _) = o.grounded();
+    let Expect { stable: expected, grd, .. } = expect_of(&c.adf.acs);
     let und = grd.iter().filter(|t| !t.decided()).count();
     let res = sut::with_parser(&text, c.sort, |p| -> Result<Vec<String>, String> {
         let names = parser_names(p);
@@ -452,6 +541,7 @@ pub fn c04(tier: Tier) -> PropSpec {
             move || sem_case(1, hi),
             c04_check,
         ),
+        Part::new("many-models", tier.pick(1500, 15000), || sem_case_many_models(6, 11), c04_check),
         Box::new(Logged(Part::new("small-with-logging", tier.pick(1500, 15000), || sem_case(1, 5), c04_check))),
         crate::props::cli::sem_cli_part("cli-stmc", &[crate::props::cli::Flag::StmCa, crate::props::cli::Flag::StmCb], tier.pick(150, 1500))],
     }
